@@ -93,6 +93,10 @@ func checkC04(t failer, c *codec, in []byte, spare int, label string, prev ...[]
 	if verr := c.validate(v); verr != nil {
 		violation(t, "C04", c.name, "C04:"+c.name+":decoded-value-invalid", cc, "%s: decoded without error but the value fails its own Validate: %v", c.name, verr)
 	}
+	// the rules the harness states itself (the value's Validate may have been silenced together with the decoder)
+	if bad, rule := argRuleBroken(c.fromLib(v)); bad {
+		violation(t, "C04", c.name, "C04:"+c.name+":decoded-value-invalid", cc, "%s: decoded without error but the value breaks a rule of its type: %s", c.name, rule)
+	}
 	// every variable field consists of bytes from inside input[:len]
 	fs := libFields(c, v)
 	total := 0
